@@ -8,7 +8,8 @@
     and duplicate-freeness + membership is all the proofs use (sortedness is C18's
     subject).  Premises are explicit arguments of every lemma:
       [HashOk s]  BLAKE3 does not collide between the two files of ONE path;
-      [Fresh s]   the "no name clash" class (see its definition). *)
+      [Fresh s]   the "no name clash" class (see its definition); its complement is
+                  the documented known class F5. *)
 From stdpp Require Import gmap sorting.
 From Copia Require Import Model.Bisync.
 
@@ -117,16 +118,26 @@ Definition HashOk (s : state) : Prop :=
 
 (** The "no name clash" class.  For every both-changed path [p] of the plan with
     loser [l] and conflict name [q]:
-      (1) [q] is absent on both sides, OR both sides already hold exactly [l] at
-          [q] (the repeated conflict with the same loser);
-      (2) no other both-changed path of this plan has the same conflict name.
-    (1) implies that [q] is not itself a both-changed path, and in the first
-    alternative that [q] is not a planned path at all (planned paths are keys of a
-    tree).  EXCLUDED (the documented known class and its neighbours): [q] is live
-    on some side with a content other than [l], or live on one side only. *)
+      (1) [name_ok s q l]: each side holds at [q] nothing or exactly [l], and if
+          exactly one side holds it the record for [q] is not [l]'s digest.
+          Inside: [q] absent on both sides; [l] on both sides (the repeated
+          conflict with the same loser - [q]'s own action is a no-op or a
+          re-record); [l] on one side with no or another record (what a crash in
+          the middle of a conflict leaves - [q]'s own action re-copies [l]).
+      (2) no other both-changed path of this plan has the same conflict name
+          (automatic for the real name format, see [bi_cname_inj]).
+    (1) implies that [q] is not itself a both-changed path.  EXCLUDED, i.e. the
+    documented known class: (i) a side holds [q] with a content other than [l] (an
+    edited conflict copy: it is overwritten on both sides); (ii) exactly one side
+    holds [l] at [q] and the record says so (the plan, computed from the scan,
+    then deletes the copy the conflict step has just re-created on that side). *)
+Definition name_ok (s : state) (q : K) (l : content) : Prop :=
+  (tA s !! q = None \/ tA s !! q = Some l) /\
+  (tB s !! q = None \/ tB s !! q = Some l) /\
+  (tA s !! q = tB s !! q \/ base_at (arch s) q <> Some (Hh l)).
+
 Definition Fresh (s : state) : Prop :=
-  (forall p q l, conflict s p = Some (q, l) ->
-     (tA s !! q = None /\ tB s !! q = None) \/ (tA s !! q = Some l /\ tB s !! q = Some l)) /\
+  (forall p q l, conflict s p = Some (q, l) -> name_ok s q l) /\
   (forall p1 p2 q l1 l2, conflict s p1 = Some (q, l1) -> conflict s p2 = Some (q, l2) -> p1 = p2).
 
 Definition keys (s : state) : gset K := dom (tA s) ∪ dom (tB s).
@@ -230,29 +241,36 @@ Proof.
   destruct (decide (base_at (arch s) p = Some (Hh x))); discriminate.
 Qed.
 
-Lemma fin_same s x l : tA s !! x = Some l -> tB s !! x = Some l -> fin s x = Some l.
-Proof. intros Ea Eb. unfold fin, final_content. rewrite Ea, Eb. rewrite decide_True by reflexivity. reflexivity. Qed.
+Lemma name_ok_not_conflict s q l : name_ok s q l -> conflict s q = None.
+Proof.
+  intros (Ha & Hb & _). destruct (conflict s q) as [[q' l']|] eqn:E'; [|reflexivity]. exfalso.
+  pose proof E' as E''. apply conflict_spec in E'' as (x & y & Ea & Eb & _).
+  pose proof (conflict_digests_differ _ _ _ _ _ _ E' Ea Eb) as N.
+  destruct Ha as [Ha|Ha], Hb as [Hb|Hb]; congruence.
+Qed.
+
+(** a conflict name that is a key of a tree ends up holding the loser *)
+Lemma name_ok_fin s q l : name_ok s q l -> q ∈ keys s -> fin s q = Some l.
+Proof.
+  intros (Ha & Hb & Hz) Hq. apply elem_of_keys in Hq. unfold fin, final_content.
+  destruct Ha as [Ha|Ha], Hb as [Hb|Hb]; rewrite Ha, Hb in *.
+  - destruct Hq as [[? ?]|[? ?]]; discriminate.
+  - destruct Hz as [?|Hz]; [discriminate|]. rewrite decide_False by exact Hz. reflexivity.
+  - destruct Hz as [?|Hz]; [discriminate|]. rewrite decide_False by exact Hz. reflexivity.
+  - rewrite decide_True by reflexivity. reflexivity.
+Qed.
 
 (** under (1) of [Fresh] a conflict name is never a both-changed path *)
 Lemma fresh_name_not_conflict s p q l :
   Fresh s -> conflict s p = Some (q, l) -> conflict s q = None.
-Proof.
-  intros [F1 _] E. destruct (conflict s q) as [[q' l']|] eqn:E'; [|reflexivity]. exfalso.
-  pose proof E' as E''. apply conflict_spec in E'' as (x & y & Ea & Eb & _).
-  pose proof (conflict_digests_differ _ _ _ _ _ _ E' Ea Eb) as N.
-  destruct (F1 _ _ _ E) as [[Ha _]|[Ha Hb]]; congruence.
-Qed.
+Proof. intros [F1 _] E. eapply name_ok_not_conflict, F1, E. Qed.
 
 Lemma fresh_name_ne s p q l : Fresh s -> conflict s p = Some (q, l) -> q <> p.
 Proof. intros F E ->. rewrite (fresh_name_not_conflict _ _ _ _ F E) in E. discriminate. Qed.
 
-(** a conflict name that is a key of a tree holds the loser on both sides *)
-Lemma fresh_name_key s p q l :
-  Fresh s -> conflict s p = Some (q, l) -> q ∈ keys s -> tA s !! q = Some l /\ tB s !! q = Some l.
-Proof.
-  intros [F1 _] E Hq. destruct (F1 _ _ _ E) as [[Ha Hb]|?]; [|assumption].
-  apply elem_of_keys in Hq. rewrite Ha, Hb in Hq. destruct Hq as [[? ?]|[? ?]]; discriminate.
-Qed.
+Lemma fresh_name_fin s p q l :
+  Fresh s -> conflict s p = Some (q, l) -> q ∈ keys s -> fin s q = Some l.
+Proof. intros [F1 _] E Hq. eapply name_ok_fin; eauto. Qed.
 
 (** "is [x] a conflict name generated by the run from [s]?" is decidable *)
 Lemma conflict_name_dec s x :
@@ -411,6 +429,46 @@ Proof.
   - right. destruct (decide (x = p)) as [->|Np]; [left|right]; (split; [intros l' [=]|auto]).
 Qed.
 
+(** the step for a key that a processed conflict has already overwritten with its
+    loser (the key is that conflict's name): nothing changes any more *)
+Lemma kstep_named s w p l :
+  name_ok s p l -> p ∈ keys s -> wErr w = false ->
+  wA w !! p = Some l -> wB w !! p = Some l -> wC w !! p = Some (Hh l) ->
+  wErr (kstep s w p) = false /\ wConf (kstep s w p) = wConf w /\
+  forall x, wA (kstep s w p) !! x = wA w !! x /\ wB (kstep s w p) !! x = wB w !! x /\
+            wC (kstep s w p) !! x = wC w !! x.
+Proof.
+  intros (Ha & Hb & Hz) Hk He HA HB HC. apply elem_of_keys in Hk.
+  assert (U : forall {V} (m : gmap K V) (v : V) x, m !! p = Some v -> <[p := v]> m !! x = m !! x).
+  { intros V m v x Hm. destruct (decide (x = p)) as [->|N]; [rewrite lookup_insert; congruence|].
+    rewrite lookup_insert_ne by congruence. reflexivity. }
+  unfold kstep, act_at. unfold Bisync.scan.
+  destruct Ha as [Ha|Ha], Hb as [Hb|Hb]; rewrite Ha, Hb in *; cbn [fmap option_fmap option_map rpath].
+  - destruct Hk as [[? ?]|[? ?]]; discriminate.
+  - destruct Hz as [?|Hz]; [discriminate|].
+    assert (R : forall (r : option action),
+               match base_at (arch s) p with
+               | Some zv => if decide (Hh l = zv) then Some DelB else Some ConfDelMod
+               | None => Some PropBA end = r -> r = Some PropBA \/ r = Some ConfDelMod).
+    { intros r <-. destruct (base_at (arch s) p) as [zv|]; [|auto]. rewrite decide_False by congruence. auto. }
+    destruct (R _ eq_refl) as [->| ->]; unfold Bisync.apply, Bisync.copy; rewrite He; cbn;
+      rewrite !lookup_fmap, ?Ha, Hb, HB; cbn; (split; [reflexivity|]); (split; [reflexivity|]);
+      intros x; rewrite !U by assumption; auto.
+  - destruct Hz as [?|Hz]; [discriminate|].
+    assert (R : forall (r : option action),
+               match base_at (arch s) p with
+               | Some zv => if decide (Hh l = zv) then Some DelA else Some ConfDelMod
+               | None => Some PropAB end = r -> r = Some PropAB \/ r = Some ConfDelMod).
+    { intros r <-. destruct (base_at (arch s) p) as [zv|]; [|auto]. rewrite decide_False by congruence. auto. }
+    destruct (R _ eq_refl) as [->| ->]; unfold Bisync.apply, Bisync.copy; rewrite He; cbn;
+      rewrite !lookup_fmap, Ha, HA; cbn; (split; [reflexivity|]); (split; [reflexivity|]);
+      intros x; rewrite !U by assumption; auto.
+  - rewrite decide_True by reflexivity. destruct (decide (base_at (arch s) p = Some (Hh l))).
+    + auto.
+    + unfold Bisync.apply. rewrite He. cbn. rewrite lookup_fmap, Ha. cbn.
+      split; [reflexivity|]. split; [reflexivity|]. intros x. rewrite U by assumption. auto.
+Qed.
+
 (** ** The invariant of the apply loop *)
 
 Record Inv (s : state) (done : gset K) (w : work) : Prop := {
@@ -422,13 +480,11 @@ Record Inv (s : state) (done : gset K) (w : work) : Prop := {
   (* processed keys have their final values *)
   inv_done : forall x, x ∈ done ->
     wA w !! x = fin s x /\ wB w !! x = fin s x /\ wC w !! x = Hh <$> fin s x;
-  (* unprocessed keys still hold what the scan saw (a conflict copy written over an
-     unprocessed key re-wrote what was there); the record is the pruned base, or
-     already the digest of the repeated loser *)
+  (* an unprocessed key is untouched - or it is the conflict name of a processed
+     conflict and already holds the loser, recorded *)
   inv_todo : forall x, x ∈ keys s -> x ∉ done ->
-    wA w !! x = tA s !! x /\ wB w !! x = tB s !! x /\
-    (wC w !! x = base_at (arch s) x \/
-     exists l, tA s !! x = Some l /\ tB s !! x = Some l /\ wC w !! x = Some (Hh l));
+    (wA w !! x = tA s !! x /\ wB w !! x = tB s !! x /\ wC w !! x = base_at (arch s) x) \/
+    (exists l, name_ok s x l /\ wA w !! x = Some l /\ wB w !! x = Some l /\ wC w !! x = Some (Hh l));
   (* everything else is absent and unrecorded *)
   inv_out : forall x, x ∉ keys s -> (forall p l, p ∈ done -> conflict s p <> Some (x, l)) ->
     wA w !! x = None /\ wB w !! x = None /\ wC w !! x = None;
@@ -444,7 +500,7 @@ Proof.
   - split; [intros X; exfalso; apply X; reflexivity|]. intros (p & Hp & _). set_solver.
   - intros p q l Hp. set_solver.
   - intros x Hx. set_solver.
-  - intros x Hx _. split; [reflexivity|]. split; [reflexivity|]. left. apply c0_lookup_in, Hx.
+  - intros x Hx _. left. split; [reflexivity|]. split; [reflexivity|]. apply c0_lookup_in, Hx.
   - intros x Hx _. pose proof (c0_lookup_out s x Hx) as Ec. apply not_elem_of_keys in Hx as [Ha Hb]. auto.
 Qed.
 
@@ -453,38 +509,55 @@ Lemma inv_step s done w p :
   Inv s done w -> Inv s ({[p]} ∪ done) (kstep s w p).
 Proof.
   intros Hok F Hsub Hk Hnd [Ie Ic In Id It Io].
-  destruct (It p Hk Hnd) as (HA & HB & HC).
-  destruct (kstep_cases s w p Hok F Hk Ie HA HB HC) as (E1 & E2 & E3).
-  split.
-  - exact E1.
-  - rewrite E2. destruct (conflict s p) as [[q l]|] eqn:Ec.
-    + split; [|intros _ X; discriminate X]. intros _. exists p. split; [set_solver|congruence].
-    + rewrite Ic. split; intros (p' & Hp' & Hc); exists p'; (split; [|exact Hc]); [set_solver|].
-      apply elem_of_union in Hp' as [Hp'|Hp']; [|exact Hp']. apply elem_of_singleton in Hp'. congruence.
-  - intros p' q l Hp' Ec'.
-    destruct (E3 q) as [(l2 & Ec & -> & -> & ->)|[(Nc & -> & -> & -> & ->)|(Nc & Nq & -> & -> & ->)]].
-    + assert (p' = p) as -> by (eapply (proj2 F); eauto). rewrite Ec in Ec'. injection Ec' as ->. auto.
-    + destruct (fresh_name_key s p' p l F Ec' Hk) as [Ea Eb]. rewrite (fin_same _ _ _ Ea Eb). auto.
-    + apply (In p'); [|exact Ec']. apply elem_of_union in Hp' as [Hp'|Hp']; [|exact Hp'].
-      apply elem_of_singleton in Hp'. subst p'. exfalso. exact (Nc _ Ec').
-  - intros x Hx.
-    assert (Hxk : x ∈ keys s).
-    { apply elem_of_union in Hx as [Hx|Hx]; [apply elem_of_singleton in Hx; congruence|apply Hsub, Hx]. }
-    destruct (E3 x) as [(l2 & Ec & -> & -> & ->)|[(Nc & -> & -> & -> & ->)|(Nc & Nq & -> & -> & ->)]].
-    + destruct (fresh_name_key s p x l2 F Ec Hxk) as [Ea Eb]. rewrite (fin_same _ _ _ Ea Eb). auto.
-    + auto.
-    + apply Id. apply elem_of_union in Hx as [Hx|Hx]; [|exact Hx]. apply elem_of_singleton in Hx. contradiction.
-  - intros x Hxk Hx.
-    destruct (E3 x) as [(l2 & Ec & -> & -> & ->)|[(Nc & -> & _)|(Nc & Nq & -> & -> & ->)]].
-    + destruct (fresh_name_key s p x l2 F Ec Hxk) as [Ea Eb]. rewrite Ea, Eb. split; [reflexivity|].
-      split; [reflexivity|]. right. exists l2. auto.
-    + exfalso. apply Hx. set_solver.
-    + apply It; [exact Hxk|]. set_solver.
-  - intros x Hxk Hx.
-    destruct (E3 x) as [(l2 & Ec & _)|[(Nc & -> & _)|(Nc & Nq & -> & -> & ->)]].
-    + exfalso. apply (Hx p l2); [set_solver|exact Ec].
-    + contradiction.
-    + apply Io; [exact Hxk|]. intros p' l Hp'. apply Hx. set_solver.
+  destruct (It p Hk Hnd) as [(HA & HB & HC)|(l0 & Hn & HA & HB & HC)].
+  - (* [p] still holds what the scan saw *)
+    destruct (kstep_cases s w p Hok F Hk Ie HA HB (or_introl HC)) as (E1 & E2 & E3).
+    split.
+    + exact E1.
+    + rewrite E2. destruct (conflict s p) as [[q l]|] eqn:Ec.
+      * split; [|intros _ X; discriminate X]. intros _. exists p. split; [set_solver|congruence].
+      * rewrite Ic. split; intros (p' & Hp' & Hc); exists p'; (split; [|exact Hc]); [set_solver|].
+        apply elem_of_union in Hp' as [Hp'|Hp']; [|exact Hp']. apply elem_of_singleton in Hp'. congruence.
+    + intros p' q l Hp' Ec'.
+      destruct (E3 q) as [(l2 & Ec & -> & -> & ->)|[(Nc & -> & -> & -> & ->)|(Nc & Nq & -> & -> & ->)]].
+      * assert (p' = p) as -> by (eapply (proj2 F); eauto). rewrite Ec in Ec'. injection Ec' as ->. auto.
+      * rewrite (fresh_name_fin s p' p l F Ec' Hk). auto.
+      * apply (In p'); [|exact Ec']. apply elem_of_union in Hp' as [Hp'|Hp']; [|exact Hp'].
+        apply elem_of_singleton in Hp'. subst p'. exfalso. exact (Nc _ Ec').
+    + intros x Hx.
+      assert (Hxk : x ∈ keys s).
+      { apply elem_of_union in Hx as [Hx|Hx]; [apply elem_of_singleton in Hx; congruence|apply Hsub, Hx]. }
+      destruct (E3 x) as [(l2 & Ec & -> & -> & ->)|[(Nc & -> & -> & -> & ->)|(Nc & Nq & -> & -> & ->)]].
+      * rewrite (fresh_name_fin s p x l2 F Ec Hxk). auto.
+      * auto.
+      * apply Id. apply elem_of_union in Hx as [Hx|Hx]; [|exact Hx]. apply elem_of_singleton in Hx. contradiction.
+    + intros x Hxk Hx.
+      destruct (E3 x) as [(l2 & Ec & -> & -> & ->)|[(Nc & -> & _)|(Nc & Nq & -> & -> & ->)]].
+      * right. exists l2. split; [exact (proj1 F _ _ _ Ec)|auto].
+      * exfalso. apply Hx. set_solver.
+      * apply It; [exact Hxk|]. set_solver.
+    + intros x Hxk Hx.
+      destruct (E3 x) as [(l2 & Ec & _)|[(Nc & -> & _)|(Nc & Nq & -> & -> & ->)]].
+      * exfalso. apply (Hx p l2); [set_solver|exact Ec].
+      * contradiction.
+      * apply Io; [exact Hxk|]. intros p' l Hp'. apply Hx. set_solver.
+  - (* [p] is the conflict name of a processed conflict: already final *)
+    destruct (kstep_named s w p l0 Hn Hk Ie HA HB HC) as (E1 & E2 & E3).
+    pose proof (name_ok_not_conflict s p l0 Hn) as Ec.
+    assert (Hd : forall p' q l, p' ∈ {[p]} ∪ done -> conflict s p' = Some (q, l) -> p' ∈ done).
+    { intros p' q l Hp' Ec'. apply elem_of_union in Hp' as [Hp'|Hp']; [|exact Hp'].
+      apply elem_of_singleton in Hp'. congruence. }
+    split.
+    + exact E1.
+    + rewrite E2, Ic. split; intros (p' & Hp' & Hc); exists p'; (split; [|exact Hc]); [set_solver|].
+      destruct (conflict s p') as [[q l]|] eqn:Ec'; [eapply Hd; eauto|congruence].
+    + intros p' q l Hp' Ec'. destruct (E3 q) as (-> & -> & ->). apply (In p'); [eapply Hd; eauto|exact Ec'].
+    + intros x Hx. destruct (E3 x) as (-> & -> & ->).
+      apply elem_of_union in Hx as [Hx|Hx]; [|apply Id, Hx]. apply elem_of_singleton in Hx. subst x.
+      rewrite (name_ok_fin s p l0 Hn Hk). auto.
+    + intros x Hxk Hx. destruct (E3 x) as (-> & -> & ->). apply It; [exact Hxk|]. set_solver.
+    + intros x Hxk Hx. destruct (E3 x) as (-> & -> & ->). apply Io; [exact Hxk|].
+      intros p' l Hp'. apply Hx. set_solver.
 Qed.
 
 Lemma fold_inv s : HashOk s -> Fresh s ->
@@ -783,7 +856,8 @@ Proof. intros Hok p x y Ea Eb E. cbn in *. symmetry. eapply Hok; eauto. Qed.
 Lemma Fresh_swap s : dge_asym -> Fresh s -> Fresh (swap_state s).
 Proof.
   intros As [F1 F2]. split.
-  - intros p q l E. rewrite conflict_swap in E by exact As. cbn. destruct (F1 p q l E); tauto.
+  - intros p q l E. rewrite conflict_swap in E by exact As. destruct (F1 p q l E) as (Ha & Hb & Hz).
+    unfold name_ok. cbn. split; [exact Hb|]. split; [exact Ha|]. destruct Hz; auto.
   - intros p1 p2 q l1 l2 E1 E2. rewrite conflict_swap in E1, E2 by exact As. eauto.
 Qed.
 
@@ -854,8 +928,8 @@ Proof.
   { intros x Hx Ex. exists x. destruct (run_lookup s Hok F x) as (-> & -> & _). auto. }
   destruct (conflict_name_dec s p) as [[[p' l] E]|N].
   - (* [p] is itself a conflict name of this run: it held the loser on both sides *)
-    cbn in E. destruct (fresh_name_key s p' p l F E Hk) as [Ea Eb].
-    assert (c = l) as -> by (destruct sd; cbn in Hc; congruence).
+    cbn in E. destruct (proj1 F _ _ _ E) as (Ha & Hb & _).
+    assert (c = l) as -> by (destruct sd; cbn in Hc; [destruct Ha|destruct Hb]; congruence).
     left. apply (L p); [auto|]. apply (expected_name _ _ _ _ F E).
   - pose proof (expected_other s p N) as Ep. unfold fin, final_content in Ep.
     destruct sd; cbn in Hc |- *.
@@ -1046,8 +1120,9 @@ Definition conflicts (s : state) : list (K * (K * content)) :=
 
 Definition fresh_check (s : state) : bool :=
   forallb (fun e : K * (K * content) =>
-             bool_decide ((tA s !! e.2.1 = None /\ tB s !! e.2.1 = None) \/
-                          (tA s !! e.2.1 = Some e.2.2 /\ tB s !! e.2.1 = Some e.2.2))) (conflicts s)
+             bool_decide ((tA s !! e.2.1 = None \/ tA s !! e.2.1 = Some e.2.2) /\
+                          (tB s !! e.2.1 = None \/ tB s !! e.2.1 = Some e.2.2) /\
+                          (tA s !! e.2.1 = tB s !! e.2.1 \/ base_at (arch s) e.2.1 <> Some (Hh e.2.2)))) (conflicts s)
   && bool_decide (NoDup ((fun e : K * (K * content) => e.2.1) <$> conflicts s)).
 
 Lemma elem_of_conflicts s p q l : conflict s p = Some (q, l) -> (p, (q, l)) ∈ conflicts s.
@@ -1080,3 +1155,27 @@ Proof.
 Qed.
 
 End BisyncProofs.
+
+(** ** The real conflict-name format is injective in the path
+
+    [<p>.conflict-<host>-<12 hex digits>]: for one host the suffix has a fixed length
+    (digests have at least 6 bytes), so equal names have equal paths - clause (2)
+    of [Fresh] always holds for the executed instance. *)
+From Copia Require Import Model.BisyncExec.
+
+Lemma hex12_length (d : list Z) : (6 <= length d)%nat -> length (hex12 d) = 12%nat.
+Proof.
+  intros Hd. unfold hex12.
+  assert (L : forall l : list Z,
+            length (flat_map (fun b => [hexdigit (b / 16); hexdigit (b mod 16)]%Z) l) = (2 * length l)%nat).
+  { induction l as [|b l IH]; [reflexivity|]. cbn [flat_map]. rewrite app_length, IH. cbn [length]. lia. }
+  rewrite L, firstn_length_le by exact Hd. reflexivity.
+Qed.
+
+Lemma bi_cname_inj (host p1 d1 p2 d2 : list Z) :
+  (6 <= length d1)%nat -> (6 <= length d2)%nat ->
+  bi_cname host p1 d1 = bi_cname host p2 d2 -> p1 = p2.
+Proof.
+  intros H1 H2 E. unfold bi_cname in E. apply app_inj_2 in E as [E _]; [exact E|].
+  rewrite !app_length, !hex12_length by assumption. reflexivity.
+Qed.
